@@ -30,8 +30,8 @@ PROBES = ["chunk_with_2plus_tasks", "worker_ran_2plus_chunks", "more_workers_tha
           "starting_knowledge_beyond_minimal", "best_states", "meta_game", "sampled_several_games",
           "calibrated_against_real_pool", "n4"]
 TIERS = {
-    "quick": {"runs": 1500, "wall": 50, "batch": 4, "shrink_s": 40},
-    "thorough": {"runs": 100000, "wall": 1200, "batch": 8, "shrink_s": 150},
+    "quick": {"runs": 6000, "wall": 40, "batch": 6, "shrink_s": 40},
+    "thorough": {"runs": 1000000, "wall": 1200, "batch": 8, "shrink_s": 150},
 }
 
 
